@@ -138,7 +138,7 @@ Section Kept.
       - clean_crush CLN.
       - destruct (clean_source_of s st k CLN) as [->|[st1 [-> [C1 _]]]]; [exact CLN|].
         clean_crush C1. }
-    destruct e as [j|k|k c vld|k c vld|k c vld|r|r|k| |ds|]; cbn.
+    destruct e as [j|k|k c vld|k c vld|k c vld|r|r|k| |ds| |ok]; cbn.
     - specialize (HD j eq_refl). split; cbn.
       + intros k Hin. rewrite lookup_set_nat. destruct (Nat.eqb (path_of C k) (path_of C j)) eqn:E.
         * destruct Hin as [<-|Hin]; [split; [exact HD | rewrite HD; reflexivity]|].
@@ -170,6 +170,7 @@ Section Kept.
     - exact CLN.
     - exact CLN.
     - split; cbn; [tauto | discriminate].
+    - exact CLN.
   Qed.
 
   Lemma quiet_step : forall s d st e,
@@ -177,7 +178,7 @@ Section Kept.
     Clean s (snd (step C st e)) /\ Kept s d (snd (step C st e)).
   Proof.
     intros s d st e Q CLN K.
-    destruct e as [j|k|k c vld|k c vld|k c vld|r|r|k| |ds|]; cbn in Q; try discriminate.
+    destruct e as [j|k|k c vld|k c vld|k c vld|r|r|k| |ds| |ok]; cbn in Q; try discriminate.
     - split; [apply clean_step; auto; intros j' H; inversion H; subst; apply src_eqb_spec; exact Q|].
       exact K.
     - split; [apply clean_step; auto; discriminate|]. cbn. destruct (mem_nat k (live st)); exact K.
@@ -193,6 +194,7 @@ Section Kept.
         (split; [exact C1 | split; [assumption | rewrite He1; assumption]]).
     - split; [apply clean_step; auto; discriminate|]. cbn.
       destruct (nth_error (refs st) r) as [[d' ?]|]; [|exact K]. destruct (dlookup C d' (entries st)); exact K.
+    - split; [apply clean_step; auto; discriminate|]. exact K.
     - split; [apply clean_step; auto; discriminate|]. exact K.
   Qed.
 
@@ -291,7 +293,7 @@ Section Kept.
       pose proof (in_cache_disk _ _ _ _ _ _ G Ev) as Hd.
       apply gen_of_disk.
       destruct ov; [destruct sh; exact Hd|]. destruct (bind_spec C c); [destruct sh|]; exact Hd. }
-    destruct e as [j|k|k c vld|k c vld|k c vld|r|r|k| |ds|]; cbn.
+    destruct e as [j|k|k c vld|k c vld|k c vld|r|r|k| |ds| |ok]; cbn.
     - split; cbn; [exact G1|]. intros H. rewrite (G2 H). reflexivity.
     - destruct (mem_nat k (live st)); exact G.
     - apply Hcc.
@@ -310,6 +312,7 @@ Section Kept.
     - split; reflexivity.
     - split; cbn; [|exact G2]. intros H. rewrite (G1 H). reflexivity.
     - split; cbn; [exact G1 | reflexivity].
+    - split; cbn; [exact G1|]. intros H. rewrite (G2 H). destruct ok; reflexivity.
   Qed.
 
   Lemma gen_final : forall h st, Gen st -> Gen (final C st h).
